@@ -193,6 +193,13 @@ def r4(cx):
             x.primary.split("::")[-1] in ("filter", "retain", "truncate", "pop", "drain", "take", "skip", "split_off", "dedup") for x in o.calls),
             "CompactionIterator receives SnapshotTracker::get_all_snapshots() unmodified", "snapshots-provenance", c.where(),
             "the snapshot list handed to the compaction iterator does not come (unfiltered) from the snapshot tracker")
+        # ... on EVERY path: no other producer of a snapshot vector (Vec::new(), a literal, a conditional default) may
+        # reach the argument
+        other = [x for x in o.calls if not (x.names & {"SnapshotTracker::get_all_snapshots"}) and x.ret_ty.startswith("std::vec::Vec<")]
+        cx.check(not other and not any(a.get("adt", "").endswith("Vec") for a in o.aggs), "the snapshot list has no second source (%s)" % ", ".join(sorted({x.primary for x in other})),
+                 "snapshots-second-source", c.where(),
+                 "on some path the compaction iterator is given a snapshot list that does not come from the tracker (%s): compaction then runs as if no "
+                 "reader were open and drops versions / tombstones an open transaction still needs" % ", ".join(sorted({x.primary for x in other})))
         # mutation of the vector between capture and use
         src = [x for x in o.calls if x.names & {"SnapshotTracker::get_all_snapshots"}]
         for s in src:
